@@ -1,38 +1,49 @@
 ----------------------------- MODULE MCCliDecode -----------------------------
-(* CliDecode against the C18 statement, for every tool x option x library    *)
-(* verdict; also the plan generator (one PLAN line per combination).         *)
-EXTENDS CliDecode, TLC, Json
+(* CliDecode against the C18 statement, for every tool x input source x      *)
+(* option x library verdict.                                                 *)
+EXTENDS CliDecode, TLC
 
-VARIABLES tool, opt, lib
-vars == <<tool, opt, lib>>
+VARIABLES tool, opt, lib, src
+vars == <<tool, opt, lib, src>>
 Opts == [singleStream : BOOLEAN, force : BOOLEAN, nowarn : BOOLEAN, quiet : {0, 1, 2}]
-Libs == [det : {"xz", "lzma", "lzip", "none"}, final : {"END", "ERR"}, unsup : 0..2, trailing : BOOLEAN]
-Init == tool \in Tools /\ opt \in Opts /\ lib \in Libs
+Libs == [det : {"xz", "lzma", "lzip", "raw", "none"}, final : {"END", "ERR"}, unsupFirst : 0..1, unsupLater : 0..2,
+         trailing : BOOLEAN, atBoundary : BOOLEAN]
+Init == tool \in Tools /\ opt \in Opts /\ lib \in Libs /\ src \in Srcs
 Next == UNCHANGED vars
 Spec == Init /\ [][Next]_vars
 
-R == Run(tool, opt, lib)
+R == Run(tool, opt, lib, src)
 IsXz == tool \in {"xz_dc", "xz_d", "xz_t"}
 PassThru == tool = "xz_dc" /\ opt.force /\ lib.det = "none"
-(* the library (or the trailing-input rule) reports an error *)
+(* the library (or the rule about input after the end of the stream) reports an error *)
 LibError == IF tool = "xzdec" THEN lib.final = "ERR"
             ELSE IF tool = "lzmadec" THEN lib.final = "ERR" \/ lib.trailing
             ELSE (lib.det = "none" /\ ~PassThru) \/
                  (lib.det # "none" /\ (lib.final = "ERR" \/ (lib.trailing /\ ~opt.singleStream /\ lib.det # "lzip")))
+Unsup == lib.unsupFirst + lib.unsupLater
 
 (* exit status reports failure exactly when the library reports an error; an *)
-(* unverifiable check type is only a warning, and only in xz                 *)
+(* unverifiable check type - in whichever Stream - is only a warning, and    *)
+(* only in xz                                                                *)
 ExitReportsError == (R.exit = 1) <=> LibError
-WarningOnlyXz == (R.exit = 2) <=> (IsXz /\ ~LibError /\ lib.det # "none" /\ lib.unsup > 0 /\ ~opt.nowarn)
+WarningOnlyXz == (R.exit = 2) <=> (IsXz /\ ~LibError /\ lib.det # "none" /\ Unsup > 0 /\ ~opt.nowarn)
 (* what reaches stdout: everything decoded (before an error), or nothing for the tools that do not write there *)
 StdoutIsDecoded == /\ (tool \in {"xzdec", "lzmadec"} => R.stdout = "decoded")
                    /\ (tool = "xz_dc" /\ lib.det # "none" => R.stdout = "decoded")
-                   /\ (tool \in {"xz_d", "xz_t"} => R.stdout = "none")
+                   /\ (tool = "xz_d" /\ lib.det # "none" => R.stdout = (IF src = "file" THEN "none" ELSE "decoded"))
+                   /\ (tool = "xz_t" => R.stdout = "none")
                    /\ (R.stdout = "input" <=> PassThru)
-(* a file is created only from a completely valid input, and only then is the source removed *)
-FileOnlyIfValid == /\ (R.file => tool = "xz_d" /\ ~LibError /\ lib.final = "END")
-                   /\ (tool = "xz_d" /\ ~LibError => R.file)
+(* a file is created only from a completely valid named input, and only then is the source removed *)
+FileOnlyIfValid == /\ (R.file => tool = "xz_d" /\ src = "file" /\ ~LibError /\ lib.final = "END")
+                   /\ (tool = "xz_d" /\ src = "file" /\ ~LibError => R.file)
                    /\ (R.srcRemoved <=> R.file /\ ~opt.singleStream)
-(* all tools agree on a valid .xz input without warnings *)
-Emit == PrintT(<<"PLAN", ToJson([tool |-> tool, opt |-> opt, lib |-> lib, r |-> R])>>)
+(* the verdict does not depend on how the input arrives nor on where the     *)
+(* stream ends relative to the I/O buffer nor on which Stream carries the    *)
+(* unverifiable check                                                        *)
+SourceIndependent == \A s \in Srcs : Run(tool, opt, lib, s).exit = R.exit
+BoundaryIndependent == Run(tool, opt, [lib EXCEPT !.atBoundary = ~lib.atBoundary], src).exit = R.exit
+StreamPositionIndependent ==
+    \A uf \in 0..1, ul \in 0..2 : (uf + ul > 0) = (Unsup > 0) =>
+        LET r2 == Run(tool, opt, [lib EXCEPT !.unsupFirst = uf, !.unsupLater = ul], src) IN
+        r2.exit = R.exit /\ r2.stdout = R.stdout /\ r2.file = R.file
 =============================================================================
